@@ -124,10 +124,11 @@ _CACHE: Dict[tuple, List[StoreWalk]] = {}
 
 def walks(p: Project, assume_inv=('I1',), unroll: int = 2) -> List[StoreWalk]:
     assume_inv = tuple(assume_inv or ())
-    key = (id(p), assume_inv, unroll)
-    if key not in _CACHE:
-        _CACHE[key] = [StoreWalk(p, s, assume_inv, unroll) for s in tables.discover_stores(p)]
-    return _CACHE[key]
+    cache = p.__dict__.setdefault('_storewalk_cache', {})
+    key = (assume_inv, unroll)
+    if key not in cache:
+        cache[key] = [StoreWalk(p, s, assume_inv, unroll) for s in tables.discover_stores(p)]
+    return cache[key]
 
 
 def rel(fi_or_module) -> str:
